@@ -199,7 +199,7 @@ class Fn:
                 work.append(s)
         return seen
 
-    def reachable_ps(self, starts, removed_blocks=(), removed_edges=()):
+    def reachable_ps(self, starts, removed_blocks=(), removed_edges=(), call_values=None):
         """like reachable(), but path-sensitive in what is known about locals along the path: bool / integer locals assigned
         constants (the shape `matches!`/`&&`/`||` compile to), and enum-typed locals assigned an aggregate of a known variant
         (Ok(..) / Err(..) / Some(..) built by a spliced helper and then tested by `?` or a match).  A switch on such a local, or on
@@ -235,7 +235,10 @@ class Fn:
             t = self.blocks[b]['t']
             if t['k'] == 'call' and not t['d']['p']:
                 val = None
-                if t.get('args') and call_matches(t, ['core::ops::try_trait::Try::branch']):
+                if call_values is not None:
+                    # the caller fixes the result of some calls (evaluation of a predicate over a finite domain)
+                    val = call_values(b, t)
+                if val is None and t.get('args') and call_matches(t, ['core::ops::try_trait::Try::branch']):
                     src = k.get(t['args'][0].get('l')) if not t['args'][0].get('p') else None
                     if isinstance(src, tuple):
                         if src[1] == 'core::result::Result':
